@@ -830,7 +830,11 @@ def edge_establishes(ctx, func, nz, edge, atom_pred, depth=0):
     directly, or because the edge is the outcome of a call to a helper of
     the package all of whose returns with that outcome establish one."""
     for atom in nz.facts_of_edge(edge):
-        if atom_pred(atom):
+        if atom.key[0] == 'anyof':
+            alts = N.alternatives(atom)
+            if alts and all(atom_pred(a) for a in alts):
+                return True
+        elif atom_pred(atom):
             return True
     node = edge.src
     if node.kind != 'test' or edge.kind not in ('true', 'false') or \
